@@ -31,62 +31,219 @@ type ScanResult struct {
 	Form    string `json:"form,omitempty"` // loop | unrolled
 }
 
-func isShr7(v, x ssa.Value) bool {
-	b, ok := v.(*ssa.BinOp)
-	if !ok || b.Op != token.SHR || b.X != x {
-		return false
-	}
-	k, ok := constInt(b.Y)
-	return ok && k == 7
+// ---------------------------------------------------------------------------
+// Values seen through small helpers.
+//
+// The recognisers below read integer expressions of the Lookup body.  A
+// behaviour-preserving refactor may move a sub-expression into an unexported
+// helper (`xabs, xmask := lookupAbs(x)`), so an expression is followed INTO
+// the statically known callee: cv is an SSA value together with the frame
+// (callee, actual arguments) it lives in.  peel strips integer conversions,
+// replaces a parameter of an inlined helper by the actual argument, and a call
+// (or one result of a call) of a straight-line helper of package curve by the
+// operand of its return statement.  Locals need no treatment: SSA has none.
+// ---------------------------------------------------------------------------
+
+type frame struct {
+	fn    *ssa.Function
+	args  []cv
+	depth int
 }
 
-// isAbs recognises uint8((x + m) ^ m) with m = x >> 7 (arithmetic shift of
-// the int8 parameter).
-func isAbs(v, x ssa.Value) bool {
-	v = stripConv(v)
-	xor, ok := v.(*ssa.BinOp)
-	if !ok || xor.Op != token.XOR {
-		return false
+type cv struct {
+	v ssa.Value
+	f *frame // nil: a value of the function under analysis
+}
+
+// exprHelper returns the return instruction of g if g is a helper an
+// expression can be followed into: package curve, one basic block (branch-free,
+// hence also loop-free), no free variables.
+func exprHelper(g *ssa.Function) *ssa.Return {
+	if g == nil || len(g.Blocks) != 1 || len(g.FreeVars) != 0 || g.Pkg == nil || load.Rel(g.Pkg.Pkg) != curveRel {
+		return nil
 	}
-	for _, pair := range [][2]ssa.Value{{xor.X, xor.Y}, {xor.Y, xor.X}} {
-		add, ok := pair[0].(*ssa.BinOp)
-		if !ok || add.Op != token.ADD || !isShr7(pair[1], x) {
+	b := g.Blocks[0]
+	ret, _ := b.Instrs[len(b.Instrs)-1].(*ssa.Return)
+	return ret
+}
+
+func peel(c cv) cv {
+	for i := 0; i < 64; i++ {
+		switch w := c.v.(type) {
+		case *ssa.Convert:
+			c.v = w.X
 			continue
+		case *ssa.ChangeType:
+			c.v = w.X
+			continue
+		case *ssa.Parameter:
+			if c.f == nil {
+				return c
+			}
+			found := false
+			for k, p := range c.f.fn.Params {
+				if p == w && k < len(c.f.args) {
+					c, found = c.f.args[k], true
+					break
+				}
+			}
+			if !found {
+				return c
+			}
+			continue
+		case *ssa.Extract:
+			call, ok := w.Tuple.(*ssa.Call)
+			if !ok {
+				return c
+			}
+			if r, ok := enter(call, c.f, w.Index); ok {
+				c = r
+				continue
+			}
+			return c
+		case *ssa.Call:
+			if w.Call.Signature().Results().Len() != 1 {
+				return c
+			}
+			if r, ok := enter(w, c.f, 0); ok {
+				c = r
+				continue
+			}
+			return c
 		}
-		if (add.X == x && isShr7(add.Y, x)) || (add.Y == x && isShr7(add.X, x)) {
+		return c
+	}
+	return c
+}
+
+// enter follows result #idx of call into its callee.
+func enter(call *ssa.Call, f *frame, idx int) (cv, bool) {
+	g := call.Call.StaticCallee()
+	ret := exprHelper(g)
+	depth := 0
+	if f != nil {
+		depth = f.depth
+	}
+	if ret == nil || idx >= len(ret.Results) || depth >= 3 {
+		return cv{}, false
+	}
+	nf := &frame{fn: g, depth: depth + 1}
+	for _, a := range call.Call.Args {
+		nf.args = append(nf.args, cv{a, f})
+	}
+	return cv{ret.Results[idx], nf}, true
+}
+
+func (c cv) binop(op token.Token) (x, y cv, ok bool) {
+	b, isB := c.v.(*ssa.BinOp)
+	if !isB || b.Op != op {
+		return cv{}, cv{}, false
+	}
+	return cv{b.X, c.f}, cv{b.Y, c.f}, true
+}
+
+func (c cv) isConst(k int64) bool {
+	v, ok := constInt(c.v)
+	return ok && v == k
+}
+
+// same reports whether c is the root value x (a parameter of the function
+// under analysis) after peeling.
+func same(c cv, x ssa.Value) bool {
+	c = peel(c)
+	return c.f == nil && c.v == x
+}
+
+// isShr7 recognises x >> 7 (arithmetic shift of the int8 digit: all ones iff x < 0).
+func isShr7(c cv, x ssa.Value) bool {
+	a, k, ok := peel(c).binop(token.SHR)
+	return ok && k.isConst(7) && isSignedInt(a.v.Type()) && same(a, x)
+}
+
+// isSignedInt: a signed integer type of any width (the sign-extended digit
+// shifted right by 7 is all ones iff the digit is negative).
+func isSignedInt(t types.Type) bool {
+	b, ok := t.Underlying().(*types.Basic)
+	return ok && b.Info()&types.IsInteger != 0 && b.Info()&types.IsUnsigned == 0
+}
+
+func isSigned8(t types.Type) bool {
+	b, ok := t.Underlying().(*types.Basic)
+	return ok && b.Kind() == types.Int8
+}
+
+func isUnsigned8(t types.Type) bool {
+	b, ok := t.Underlying().(*types.Basic)
+	return ok && (b.Kind() == types.Uint8)
+}
+
+// isAbs recognises |x| as uint8((x + m) ^ m) or uint8((x ^ m) - m) with m = x >> 7,
+// operands of the commutative operators in any order.
+func isAbs(c cv, x ssa.Value) bool {
+	c = peel(c)
+	if a, b, ok := c.binop(token.XOR); ok {
+		for _, pr := range [][2]cv{{a, b}, {b, a}} {
+			if !isShr7(pr[1], x) {
+				continue
+			}
+			if p, q, ok := peel(pr[0]).binop(token.ADD); ok {
+				if (same(p, x) && isShr7(q, x)) || (same(q, x) && isShr7(p, x)) {
+					return true
+				}
+			}
+		}
+	}
+	if a, b, ok := c.binop(token.SUB); ok && isShr7(b, x) {
+		if p, q, ok := peel(a).binop(token.XOR); ok {
+			if (same(p, x) && isShr7(q, x)) || (same(q, x) && isShr7(p, x)) {
+				return true
+			}
+		}
+	}
+	return false
+}
+
+// isSignMask recognises the 0/1 sign of x: (x >> 7) & 1, or uint8(x) >> 7
+// (logical shift of the byte).
+func isSignMask(c cv, x ssa.Value) bool {
+	c = peel(c)
+	if a, b, ok := c.binop(token.AND); ok {
+		for _, pr := range [][2]cv{{a, b}, {b, a}} {
+			if pr[1].isConst(1) && isShr7(pr[0], x) {
+				return true
+			}
+		}
+	}
+	if a, k, ok := c.binop(token.SHR); ok && k.isConst(7) && isUnsigned8(a.v.Type()) {
+		if cvt, isC := a.v.(*ssa.Convert); isC && isSigned8(cvt.X.Type()) && same(cv{cvt.X, a.f}, x) {
 			return true
 		}
 	}
 	return false
 }
 
-// isSignMask recognises int(byte((x >> 7) & 1)).
-func isSignMask(v, x ssa.Value) bool {
-	v = stripConv(v)
-	and, ok := v.(*ssa.BinOp)
-	if !ok || and.Op != token.AND {
-		return false
-	}
-	for _, pair := range [][2]ssa.Value{{and.X, and.Y}, {and.Y, and.X}} {
-		if k, ok := constInt(pair[1]); ok && k == 1 && isShr7(pair[0], x) {
-			return true
-		}
-	}
-	return false
+// affine expresses c as counter+off (iv != nil) or as the constant off; the
+// counter is a counting-loop variable of the function under analysis.
+func affine(c cv) (iv *induction, off int64, ok bool) {
+	return affineDepth(c, 0)
 }
 
-// affine expresses v as counter+off (ctr != nil) or as the constant off.
-func affine(v ssa.Value) (iv *induction, off int64, ok bool) {
-	v = stripConv(v)
-	if k, isK := constInt(v); isK {
+func affineDepth(c cv, depth int) (iv *induction, off int64, ok bool) {
+	c = peel(c)
+	if k, isK := constInt(c.v); isK {
 		return nil, k, true
 	}
-	if iv, d, isC := loopCounter(v); isC {
-		return iv, d, true
+	if c.f == nil {
+		if iv, d, isC := loopCounter(c.v); isC {
+			return iv, d, true
+		}
 	}
-	if b, isB := v.(*ssa.BinOp); isB && (b.Op == token.ADD || b.Op == token.SUB) {
+	if depth > 4 {
+		return nil, 0, false
+	}
+	if b, isB := c.v.(*ssa.BinOp); isB && (b.Op == token.ADD || b.Op == token.SUB) {
 		if k, isK := constInt(b.Y); isK {
-			if iv, d, isC := loopCounter(b.X); isC {
+			if iv, d, ok := affineDepth(cv{b.X, c.f}, depth+1); ok {
 				if b.Op == token.SUB {
 					k = -k
 				}
@@ -94,12 +251,21 @@ func affine(v ssa.Value) (iv *induction, off int64, ok bool) {
 			}
 		}
 		if k, isK := constInt(b.X); isK && b.Op == token.ADD {
-			if iv, d, isC := loopCounter(b.Y); isC {
+			if iv, d, ok := affineDepth(cv{b.Y, c.f}, depth+1); ok {
 				return iv, d + k, true
 			}
 		}
 	}
 	return nil, 0, false
+}
+
+// site is a call on the result location: the call, the helper frame it was
+// found in (nil: the scan function itself) and the instruction of the scan
+// function it belongs to (for ordering).
+type site struct {
+	call *ssa.Call
+	f    *frame
+	top  ssa.Instruction
 }
 
 func methodNamed(c *ssa.Function, name string) bool {
@@ -152,54 +318,94 @@ func before(a, b ssa.Instruction) bool {
 
 // checkScan decides the scan part in fn: tbl is the table pointer, recv the
 // result location, isX recognises |x|.  It returns the diagnosis ("" = ok).
-func checkScan(fn *ssa.Function, tbl, recv ssa.Value, isX func(ssa.Value) bool) (form string, n int64, pos token.Pos, diag string) {
+func checkScan(fn *ssa.Function, tbl, recv ssa.Value, isX func(cv) bool) (form string, n int64, pos token.Pos, diag string) {
 	arr, ok := isArrayPtr(tbl.Type())
 	if !ok {
 		return "", 0, fn.Pos(), "the table is not a pointer to an array"
 	}
 	n = arr.Len()
-	var ident *ssa.Call
-	var assigns []*ssa.Call
-	for _, b := range fn.Blocks {
-		for _, in := range b.Instrs {
-			call, ok := in.(*ssa.Call)
-			if !ok {
-				continue
-			}
-			c := call.Call.StaticCallee()
-			if c == nil || len(call.Call.Args) == 0 || call.Call.Args[0] != recv {
-				continue
-			}
-			switch {
-			case methodNamed(c, "Identity") && ident == nil:
-				ident = call
-			case methodNamed(c, "ConditionalAssign"):
-				assigns = append(assigns, call)
+	// the Identity / ConditionalAssign calls on the result, also those made
+	// inside straight-line helpers of package curve (followed like expressions)
+	var idents, assigns []site
+	var collect func(blocks []*ssa.BasicBlock, f *frame, outer ssa.Instruction)
+	collect = func(blocks []*ssa.BasicBlock, f *frame, outer ssa.Instruction) {
+		for _, b := range blocks {
+			for _, in := range b.Instrs {
+				call, ok := in.(*ssa.Call)
+				if !ok {
+					continue
+				}
+				c := call.Call.StaticCallee()
+				if c == nil || len(call.Call.Args) == 0 {
+					continue
+				}
+				top := outer
+				if top == nil {
+					top = in
+				}
+				onResult := same(cv{call.Call.Args[0], f}, recv)
+				switch {
+				case methodNamed(c, "Identity") && onResult:
+					idents = append(idents, site{call, f, top})
+				case methodNamed(c, "ConditionalAssign") && onResult:
+					assigns = append(assigns, site{call, f, top})
+				default:
+					depth := 0
+					if f != nil {
+						depth = f.depth
+					}
+					if len(c.Blocks) == 1 && len(c.FreeVars) == 0 && c.Pkg != nil && load.Rel(c.Pkg.Pkg) == curveRel && depth < 3 {
+						passes := false
+						for _, a := range call.Call.Args {
+							if same(cv{a, f}, recv) {
+								passes = true
+							}
+						}
+						if passes {
+							nf := &frame{fn: c, depth: depth + 1}
+							for _, a := range call.Call.Args {
+								nf.args = append(nf.args, cv{a, f})
+							}
+							collect(c.Blocks, nf, top)
+						}
+					}
+				}
 			}
 		}
 	}
-	if ident == nil {
+	collect(fn.Blocks, nil, nil)
+	if len(idents) == 0 {
 		return "", n, fn.Pos(), "the result is not initialised with Identity()"
 	}
 	if len(assigns) == 0 {
 		return "", n, fn.Pos(), "no ConditionalAssign on the result: not a masked scan"
 	}
+	ident := idents[0]
+	for _, id := range idents[1:] {
+		for _, ca := range assigns {
+			if !before(id.top, ca.top) {
+				return "", n, id.call.Pos(), "the result is reset with Identity() after a ConditionalAssign can have executed"
+			}
+		}
+	}
 	type pair struct{ idx, cmp int64 }
 	seen := map[pair]int{}
 	form = "unrolled"
 	for _, ca := range assigns {
-		pos = ca.Pos()
-		if !before(ident, ca) {
+		pos = ca.top.Pos()
+		if !before(ident.top, ca.top) {
 			return form, n, pos, "a ConditionalAssign is not preceded by Identity() on every path"
 		}
-		if len(ca.Call.Args) != 3 {
+		if len(ca.call.Call.Args) != 3 {
 			return form, n, pos, "unexpected ConditionalAssign signature"
 		}
-		ia, ok := ca.Call.Args[1].(*ssa.IndexAddr)
-		if !ok || ia.X != tbl {
+		entry := peel(cv{ca.call.Call.Args[1], ca.f})
+		ia, ok := entry.v.(*ssa.IndexAddr)
+		if !ok || !same(cv{ia.X, entry.f}, tbl) {
 			return form, n, pos, "the entry assigned is not an element of the table"
 		}
-		cmpCall, ok := stripConv(ca.Call.Args[2]).(*ssa.Call)
+		mask := peel(cv{ca.call.Call.Args[2], ca.f})
+		cmpCall, ok := mask.v.(*ssa.Call)
 		var cc *ssa.Function
 		if ok {
 			cc = cmpCall.Call.StaticCallee()
@@ -207,18 +413,18 @@ func checkScan(fn *ssa.Function, tbl, recv ssa.Value, isX func(ssa.Value) bool) 
 		if cc == nil || cc.Name() != "ConstantTimeCompareByte" || cc.Pkg == nil || load.Rel(cc.Pkg.Pkg) != subtleRel || len(cmpCall.Call.Args) != 2 {
 			return form, n, pos, "the selection mask is not subtle.ConstantTimeCompareByte(|x|, j)"
 		}
-		a0, a1 := cmpCall.Call.Args[0], cmpCall.Call.Args[1]
-		var cmpV ssa.Value
+		a0, a1 := cv{cmpCall.Call.Args[0], mask.f}, cv{cmpCall.Call.Args[1], mask.f}
+		var cmpC cv
 		switch {
 		case isX(a0):
-			cmpV = a1
+			cmpC = a1
 		case isX(a1):
-			cmpV = a0
+			cmpC = a0
 		default:
 			return form, n, pos, "the selection mask does not compare |x| (= uint8((x + x>>7) ^ x>>7))"
 		}
-		ivI, offI, ok1 := affine(ia.Index)
-		ivC, offC, ok2 := affine(cmpV)
+		ivI, offI, ok1 := affine(cv{ia.Index, entry.f})
+		ivC, offC, ok2 := affine(cmpC)
 		if !ok1 || !ok2 {
 			return form, n, pos, "table index or compared value is not (loop counter + constant)"
 		}
@@ -306,15 +512,18 @@ func CheckMaskedScan(run *report.Run, p *load.Program, ruleID string) []ScanResu
 					}
 				}
 			}
-			if neg == nil || len(neg.Call.Args) != 2 || !isSignMask(neg.Call.Args[1], x) {
+			if neg == nil || len(neg.Call.Args) != 2 || !isSignMask(cv{neg.Call.Args[1], nil}, x) {
 				ru.Failf(p.Pos(m.Pos()), construct, "Lookup does not end with ConditionalNegate(int(byte(x>>7 & 1))) on the result")
 				continue
 			}
 			recv := neg.Call.Args[0]
-			// delegation lookupX(tbl, &t, |x|) ?
+			// delegation of the scan: a call of a function of package curve that
+			// receives the table and the result location (in any argument
+			// position) and |x| or x itself
 			scanFn, scanTbl, scanRecv := fn, tbl, recv
-			isX := func(v ssa.Value) bool { return isAbs(v, x) }
+			isX := func(c cv) bool { return isAbs(c, x) }
 			var deleg *ssa.Call
+			ti, ri := -1, -1
 			for _, b := range fn.Blocks {
 				for _, in := range b.Instrs {
 					call, ok := in.(*ssa.Call)
@@ -322,18 +531,38 @@ func CheckMaskedScan(run *report.Run, p *load.Program, ruleID string) []ScanResu
 						continue
 					}
 					c := call.Call.StaticCallee()
-					if c == nil || c.Signature.Recv() != nil || len(call.Call.Args) != 3 {
+					if c == nil || c.Pkg == nil || load.Rel(c.Pkg.Pkg) != curveRel || methodNamed(c, "ConditionalNegate") || methodNamed(c, "ConditionalAssign") || methodNamed(c, "Identity") {
 						continue
 					}
-					if call.Call.Args[0] == tbl && call.Call.Args[1] == recv {
-						deleg = call
+					a, r := -1, -1
+					for k, arg := range call.Call.Args {
+						switch arg {
+						case tbl:
+							a = k
+						case recv:
+							r = k
+						}
+					}
+					if a >= 0 && r >= 0 {
+						deleg, ti, ri = call, a, r
 					}
 				}
 			}
 			if deleg != nil {
 				g := deleg.Call.StaticCallee()
 				r.Scan = funcKey(g)
-				if !isAbs(deleg.Call.Args[2], x) {
+				// which argument carries the digit: |x| (the usual form) or x
+				absArg, rawArg := -1, -1
+				for k, arg := range deleg.Call.Args {
+					switch {
+					case k == ti || k == ri:
+					case isAbs(cv{arg, nil}, x):
+						absArg = k
+					case same(cv{arg, nil}, x):
+						rawArg = k
+					}
+				}
+				if absArg < 0 && rawArg < 0 {
 					ru.Failf(p.Pos(deleg.Pos()), construct, "the scan helper %s is not called with |x| = uint8((x + x>>7) ^ x>>7)", funcKey(g))
 					continue
 				}
@@ -345,6 +574,10 @@ func CheckMaskedScan(run *report.Run, p *load.Program, ruleID string) []ScanResu
 				case len(g.Blocks) == 0:
 					// the Go wrapper (|x|, delegation, sign mask) is decided here,
 					// the scan itself is assembly (E-ASM)
+					if absArg < 0 {
+						ru.Failf(p.Pos(deleg.Pos()), construct, "the assembly scan %s is not called with |x| = uint8((x + x>>7) ^ x>>7)", funcKey(g))
+						continue
+					}
 					r.Status = "assembly"
 					if a, ok := isArrayPtr(tbl.Type()); ok {
 						r.Entries = a.Len()
@@ -358,9 +591,18 @@ func CheckMaskedScan(run *report.Run, p *load.Program, ruleID string) []ScanResu
 					res = append(res, r)
 					continue
 				}
-				scanFn, scanTbl, scanRecv = g, g.Params[0], g.Params[1]
-				xa := ssa.Value(g.Params[2])
-				isX = func(v ssa.Value) bool { return stripConv(v) == xa }
+				if ti >= len(g.Params) || ri >= len(g.Params) {
+					ru.Failf(p.Pos(deleg.Pos()), construct, "the scan helper %s cannot be analysed (arguments do not map to parameters)", funcKey(g))
+					continue
+				}
+				scanFn, scanTbl, scanRecv = g, g.Params[ti], g.Params[ri]
+				if absArg >= 0 {
+					xa := ssa.Value(g.Params[absArg])
+					isX = func(c cv) bool { return same(c, xa) }
+				} else {
+					xr := ssa.Value(g.Params[rawArg])
+					isX = func(c cv) bool { return isAbs(c, xr) }
+				}
 			}
 			form, n, pos, diag := checkScan(scanFn, scanTbl, scanRecv, isX)
 			r.Form, r.Entries, r.Status = form, n, "decided"
